@@ -1105,6 +1105,8 @@ func runRoam(t failer, c *ev.Collector, cs RoamCase) (info roamInfo) {
 	var chanAll [][]rgot
 	liveSeen := 0
 	var livePending [][]entry // steps since the last barrier
+	shapes := 0               // extended objects stored so far
+	redefined := false        // the fence was re-defined under its name at least once
 	removedRoam := false      // the roam collection was removed (and possibly re-created) after the fence was made
 	for n, s := range cs.Steps {
 		if n < cs.Pre {
